@@ -169,3 +169,24 @@ def value_self_attrs_read(e, selfname='self'):
                 continue
             out.add(n.attr)
     return out
+
+
+def guards_ext(node, pm, stop=None):
+    """guards() plus early-exit guards: a preceding sibling `if C: continue/break/return/raise` (in the same block or in an
+    enclosing block up to the function) makes the statement conditional on `not C`."""
+    out = list(guards(node, pm, stop))
+    cur = node
+    while cur in pm and pm[cur] is not stop:
+        par = pm[cur]
+        for field in ('body', 'orelse', 'finalbody'):
+            blk = getattr(par, field, None)
+            if isinstance(blk, list) and any(x is cur for x in blk):
+                for st in blk:
+                    if st is cur:
+                        break
+                    if isinstance(st, ast.If) and st.body and isinstance(st.body[-1], (ast.Continue, ast.Break, ast.Return, ast.Raise)) and not st.orelse:
+                        out.append((st.test, False))
+        if isinstance(par, (ast.FunctionDef, ast.AsyncFunctionDef)):
+            break
+        cur = par
+    return out
